@@ -14,8 +14,8 @@
    generated variable the generator's scope maps it to, or in opt_data).
    Of the STATEMENT stages print / if / let / switch / foreach / for-range / css and call (all forms: data, value and
    content parameters) are proved (below), and the template wrapper with a theorem for every template of a program built
-   from these stages, and messages without plural rendered without a bundle; plural, messages from a bundle and the file level
-   are NOT: they are covered by translation validation only
+   from these stages, and messages without plural rendered without a bundle, and ONE WHOLE FILE (C04_gen_file_correct_partial,
+   at the end); plural and messages from a bundle are NOT: they are covered by translation validation only
    (go/cmd/soyverif/c04.go: every generated program is translated by the real
    soyjs.Write, run by node with soyutils.js and compared with the Go render).
    Stages kept for the record:
@@ -41,10 +41,11 @@
                                   context discharged for every program by induction on the call depth (recursion included)
      gen_correct_partial_template : the template wrapper (function header, opt_data defaulting, var output, return) and
                                   with it a theorem for every template of a program of the proved stages -- proved below
-                                  (C04_gen_correct_partial_template; the entry point Execute: C04_go_render_correct); the
-                                  FILE level (visitSoyFile: namespace declarations, the chain of counters from one template
-                                  to the next, the imports) and the reading of the emitted text as that function table by a
-                                  JavaScript engine are not part of it
+                                  (C04_gen_correct_partial_template; the entry point Execute: C04_go_render_correct)
+     gen_file_correct_partial   : the FILE level (soyjs.Write = gen_file: header comment, namespace declarations, the chain of
+                                  counters from one template to the next, no imports under the ES5 formatter) -- proved below
+                                  for a registry that is one file of the subset; the reading of the emitted text as that
+                                  function table by a JavaScript engine, the ES6 formatter and calls across files are not part of it
      gen_correct_partial_msg    : {msg}..{/msg} without plural and without a bundle (raw text, print and call placeholders) -- proved
                                   below (same step); plural, and messages rendered from a translation bundle -- not proved
    MiniJS idealises JavaScript: numbers are integers (a result beyond 2^53 is
@@ -54,7 +55,7 @@
 From Soy Require Import Proofs.SourceTieJs Proofs.SourceTieJsScope Proofs.SourceTieJsText.
 From Soy Require Import Model.Bytes Model.Num Model.Values Model.Outcome Model.Ast Model.JsGen Model.MiniJS
   Model.Escape Model.Directives Model.Print Generated.Tables Model.Interp
-  Model.MiniJSProg Proofs.MiniJSProofs Proofs.MiniJSPrint Proofs.MiniJSStmt Proofs.MiniJSCtl Proofs.MiniJSGo Proofs.MiniJSGen Proofs.MiniJSSim Proofs.MiniJSCall.
+  Model.MiniJSProg Proofs.MiniJSProofs Proofs.MiniJSPrint Proofs.MiniJSStmt Proofs.MiniJSCtl Proofs.MiniJSGo Proofs.MiniJSGen Proofs.MiniJSSim Proofs.MiniJSCall Proofs.MiniJSFile.
 Open Scope N_scope.
 
 (* the Soy meaning restricted to the subset IS the walker of Interp.v, and the
@@ -562,7 +563,7 @@ Proof. exact c04_jprog_chain_ok. Qed.
 Theorem C04_gen_templates : forall o, cn_ok o -> o_msgs o = None -> forall nsae F p n st bf,
   (forall t, In t p -> ct_ns_ae t = nsae /\ (S (S (bdepth (ct_body t))) < F)%nat /\ bwf [] (ct_body t) = true) ->
   shape st 0 bf nsae [[]] n ->
-  exists bf' n', gres (jwalk_list (jwalk o F) (flat_map c04_doc_nodes p)) st (c04_file_chunks o p n) 0 bf' nsae [[]] n'.
+  exists bf' n', gres o (jwalk_list (jwalk o F) (flat_map c04_doc_nodes p)) st (c04_file_chunks o p n) 0 bf' nsae [[]] n'.
 Proof. exact gen_templates. Qed.
 Print Assumptions C04_gen_templates.
 
@@ -583,7 +584,7 @@ Theorem C04_gen_correct_partial_template : forall cf o p cnt,
         c04_jcall (c04_jprog p cnt) k name jd ijv = Ok text)
   /\ (forall F st bf, (S (bdepth (ct_body t)) < F)%nat -> bwf [] (ct_body t) = true ->
         shape st 0 bf (ct_ns_ae t) [[]] (cnt name) -> c04_allopt (j_cur st) = ct_allopt t ->
-        gres (jwalk o F (t_node (c04_template t))) st
+        gres o (jwalk o F (t_node (c04_template t))) st
              (c04_tprint (template_header_line o name) (ct_allopt t) (c04_jbody t (cnt name))) 0 t_output (ct_ns_ae t) [[]]
              (snd (bgen (ct_mode t) t_output c04_body_scope (cnt name) (ct_body t)))).
 Proof. exact gen_correct_partial_template. Qed.
@@ -647,3 +648,109 @@ ns.main = function(opt_data, opt_sb, opt_ijData) {
 };
 ".
 Proof. vm_compute. repeat split; reflexivity. Qed.
+
+(* ================================================================== *)
+(* one whole file *)
+
+(* soyjs.Write on a file of the subset (Model/JsGen.v gen_file; a namespace declaration, then per template its soydoc
+   comment and the template): Ok, and the chunks are EXACTLY
+     // This file was automatically generated from <name>.   // Please don't edit this file by hand.   <blank line>
+     one line  if (typeof a.b == 'undefined') { [var ]a.b = {}; }  per dotted prefix of the namespace,
+     the printed function table c04_jprog_chain p 0 (c04_table_chunks: per template the blank line, the header line,
+     [opt_data = opt_data || {};] var output = ''; the printed MiniJS block of its body generated from the counter the
+     previous template left, return output; and the closing line),
+   and NO import line: the formatter writes none (c04_imp_free: the ES5 formatter's Call and Directive methods return an
+   empty import; proved from the regenerated formatter tables by C04_imp_free_es5), and every statement of every
+   template leaves the generator's import table as it was (the frame conjunct of gres). *)
+Theorem C04_gen_file_chunks : forall o, cn_ok o -> o_msgs o = None -> forall fname ns nsae F p, c04_imp_free o ->
+  (forall t, In t p -> ct_ns_ae t = nsae /\ (S (S (bdepth (ct_body t))) < F)%nat /\ bwf [] (ct_body t) = true) ->
+  (0 < F)%nat ->
+  gen_file o F fname (c04_file_nodes ns nsae p)
+  = Ok (c04_file_header fname ++ c04_ns_lines ns ++ c04_table_chunks o (c04_jprog_chain p 0)).
+Proof. exact gen_file_chunks. Qed.
+Print Assumptions C04_gen_file_chunks.
+Theorem C04_imp_free_es5 : forall o, o_fmt o = ES5 -> c04_imp_free o.
+Proof. exact c04_imp_free_es5. Qed.
+
+(* FULL STATEMENT:  gen_correct : forall b t data ij, check b = Ok -> in_core b data -> js_run (gen b) t data ij = render_impl b t data ij.
+   PROVED (partial): for every registry whose templates are those of one file of the subset, every budget F above the
+   nesting of the bodies, the ES5 formatter and no translation bundle:
+     (Gen) gen_file answers Ok with header, namespace declarations and the printed function table jp = c04_jprog_chain p 0;
+     and for every template of the file, every data map of core values (no floats, integers within 2^53) and every
+     call depth k for which the subset semantics c04_tout gives a text (that is the subset condition on the run: every
+     printed value is a printable scalar, every call names a template of the file, ...):
+     (Go)  Renderer.Execute (Model/Interp.v render, tied to soyhtml by C02) is Ok and its Write calls concatenate to text;
+     (JS)  the MiniJS call of that template's function of jp, with any object that holds the same data (in particular
+           to_js of the data map when its keys are identifiers) and the same injected data, returns text.
+   NOT PROVED / outside: (a) the ES6 formatter (cn_ok and c04_imp_free fail: a call is renamed by ES6Identifier and
+   imported); (b) the step from the emitted text to a function table in a real engine -- parsing the printed functions,
+   the namespace objects, soyutils.js --: node correspondence of the harness (MiniJS-vs-V8); (c) {msg} with {plural} and
+   messages rendered from a bundle (soyjs evalMsgParts): C11_three_sided_translation_partial covers bundle messages of
+   plain items relative to C04's step, not composed here; (d) a registry of several files (calls across files: the
+   function table of an engine that loaded several generated files); (e) Execute's entry mode: the statement is for
+   templates whose autoescape mode is the same when entered by Execute and by a call (hypothesis on ct_mode). *)
+Theorem C04_gen_file_correct_partial : forall cf o fname ns nsae p F,
+  c_oblig cf = [] -> (forall x, c_ij cf = Some x -> core_value x = true) -> r_templates (c_reg cf) = c04_templates p ->
+  cn_ok o -> c04_imp_free o -> o_msgs o = None ->
+  (forall t, In t p -> ct_ns_ae t = nsae /\ (S (S (bdepth (ct_body t))) < F)%nat /\ bwf [] (ct_body t) = true) ->
+  (0 < F)%nat ->
+  let jp := c04_jprog_chain p 0 in
+  gen_file o F fname (c04_file_nodes ns nsae p) = Ok (c04_file_header fname ++ c04_ns_lines ns ++ c04_table_chunks o jp)
+  /\ forall k name t data_id data first_id text fuel,
+       c04_find p name = Some t ->
+       template_mode (entry_mode (ct_ns_ae t)) (ct_ae t) = ct_mode t ->
+       forallb (fun kv => core_value (snd kv)) data = true ->
+       c04_tout (c_ij cf) go_print_text p (S k) name (fun q => assoc_s q data) = Some text ->
+       (S k * c04_D p <= fuel)%nat ->
+       (let r := render cf fuel name data_id data None None first_id in
+        rr_outcome r = Ok tt /\ concat_b (rr_writes r) = text)
+       /\ (forall jd ijv, datarel (fun q => assoc_s q data) jd -> (forall v, c_ij cf = Some v -> ijv = to_js v) ->
+             c04_jcall jp (S k) name jd ijv = Ok text)
+       /\ (forallb (fun kv => is_ident (fst kv)) data = true -> forall ijv, (forall v, c_ij cf = Some v -> ijv = to_js v) ->
+             c04_jcall jp (S k) name (to_js (VMap data_id data)) ijv = Ok text).
+Proof. exact gen_file_correct_partial. Qed.
+Print Assumptions C04_gen_file_correct_partial.
+
+(* non-vacuity: the two templates of C04_call_nonvacuous as the file ex.soy with {namespace ns}: every hypothesis of the
+   theorem holds of it, and gen_file's chunks render to the file soyjs.Write produces *)
+Definition ex_opts : jopts := {| o_fmt := ES5; o_msgs := None; o_order := fun l => l |}.
+Example C04_file_nonvacuous :
+  (cn_ok ex_opts /\ c04_imp_free ex_opts /\ o_msgs ex_opts = None)
+  /\ (forall t, In t ex_prog -> ct_ns_ae t = 1 /\ (S (S (bdepth (ct_body t))) < 12)%nat /\ bwf [] (ct_body t) = true)
+  /\ r_templates (c_reg ex_cf) = c04_templates ex_prog
+  /\ (match gen_file ex_opts 12 (b "ex.soy") (c04_file_nodes (b "ns") 1 ex_prog) with
+      | Ok cs => Some (render_chunks is_print_tbl cs) | _ => None end) = Some (b
+"// This file was automatically generated from ex.soy.
+// Please don't edit this file by hand.
+
+if (typeof ns == 'undefined') { var ns = {}; }
+
+ns.main = function(opt_data, opt_sb, opt_ijData) {
+  var output = '';
+  output += soy.$$escapeHtml(opt_data.x);
+  output += '[';
+  var param_1 = '';
+  param_1 += '\u003C';
+  param_1 += soy.$$escapeHtml(opt_data.x);
+  output += ns.item(soy.$$augmentMap(opt_data, {y: ((opt_data.x) + (1)), z: param_1}), opt_sb, opt_ijData);
+  output += ']';
+  if (opt_data.next) {
+    output += ns.main(opt_data.next, opt_sb, opt_ijData);
+  }
+  return output;
+};
+
+ns.item = function(opt_data, opt_sb, opt_ijData) {
+  var output = '';
+  output += soy.$$escapeHtml(opt_data.x);
+  output += '-';
+  output += soy.$$escapeHtml(opt_data.y);
+  output += opt_data.z;
+  return output;
+};
+").
+Proof.
+  split; [split; [intro name; apply app_nil_r|split; [apply c04_imp_free_es5; reflexivity|reflexivity]]|].
+  split; [intros t [<-|[<-|[]]]; (split; [reflexivity|split; [apply Nat.ltb_lt; reflexivity|reflexivity]])|].
+  split; [reflexivity|]. vm_compute. reflexivity.
+Qed.
